@@ -170,6 +170,52 @@ def nothing_and_padding(ctx, out):
         out.case("E" + nm, True, None, tags=[nm])
         if x != "E ValueError":
             out.violation("missing-" + nm, f"{nm}: a file without any section gave {x[:80]}", rp, observed=x[:200], promised="E ValueError")
+    # (c) a chart is the same chart whatever size the reader's blocks have: CRLF files padded so that the carriage return of a
+    #     chosen line — a closing brace first of all — is the last character of a 4 KiB … 128 KiB block and its line feed opens the next
+    prof_b = gen.Profile(max_tracks=2, garbage=0.0, unknown_sections=0.0, crlf=0.0, shuffle_sections=0.0, meta_fields=0.0)
+    for _ in range(ctx.n(10, 300)):
+        src = gen.rand_src(rng, prof_b)
+        src.meta["name"] = "x"
+        R = gen.render(src, rng, prof_b, garbage=False, newline="\n")
+        lines = R.text.split("\n")
+        if lines[-1] == "":
+            lines.pop()
+        k_name = next(i for i, l in enumerate(lines) if "Name = " in l)
+        braces = [i for i, l in enumerate(lines) if l == "}" and i > k_name]
+        target = rng.choice(braces + [rng.randrange(k_name + 1, len(lines))])
+        block = rng.choice([4096, 8192, 65536, 65536, 131072])
+        off = sum(len(l) + 2 for l in lines[:target]) + len(lines[target])  # offset of the target line's "\r" in the CRLF text
+        padn = (block - 1 - off) % block
+        lines[k_name] = lines[k_name].replace('"x"', '"x' + "y" * padn + '"')
+        crlf = "\r\n".join(lines) + "\r\n"
+        assert crlf[off + padn] == "\r" and (off + padn + 1) % block == 0, "padding arithmetic is wrong"
+        lf = "\n".join(lines) + "\n"
+        base = impl.run_path(lf.encode("utf-8"))
+        for nm, x in (("path", impl.run_path(crlf.encode("utf-8"))), ("stream", impl.run_chart(crlf))):
+            rp = {"op": "path", "hex": crlf.encode("utf-8").hex(), "base_hex": lf.encode("utf-8").hex()} if nm == "path" else {"op": "variants", "base": lf, "perm": lf, "crlf": crlf}
+            out.case("B" + fw.h([nm, crlf[:200], block, padn]), True, None, tags=[f"block-{block}-{nm}"])
+            if x != base:
+                p_, q_ = fw.first_diff(base, x)
+                out.violation("block-" + fw.h([nm, block, off + padn, crlf[:300]]), f"CRLF chart whose carriage return of line {target + 1} sits at offset {off + padn} (end of a {block}-character block) "
+                              f"parses differently from its LF spelling ({nm}): {p_[:80]!r} vs {q_[:80]!r}", rp, observed=q_[:200], promised=p_[:200])
+    # (d) whatever else is wrong with the file, a missing required section is a ValueError
+    for _ in range(ctx.n(20, 1000)):
+        src = gen.rand_src(rng, prof_b)
+        R = gen.render(src, rng, prof_b, garbage=False, newline="\n")
+        drop = rng.sample(gen.REQUIRED_TAGS[1:], rng.randint(1, 2))
+        lines = []
+        for tag, body in R.sections:
+            if tag in drop:
+                continue
+            if tag == "Song":
+                body = rng.choice([[], [l for l in body if "Resolution" not in l], ["  Resolution = x"], ["garbage"]])
+            lines += [f"[{tag}]", "{"] + body + ["}"]
+        text = "\n".join(lines) + "\n"
+        x = impl.run_chart(text)
+        rp = {"op": "missing", "text": text, "dropped": "+".join(drop) + " and an unparsable [Song]"}
+        out.case("M2" + fw.h(text), True, None, tags=["missing+bad-song"])
+        if x != "E ValueError":
+            out.violation("missing-" + fw.h(text), f"chart without [{'], ['.join(drop)}] (and with an unusable [Song]) gave {x[:80]}", rp, observed=x[:200], promised="E ValueError")
     prof = gen.Profile(max_tracks=2, garbage=0.0, unknown_sections=0.5, crlf=0.3)
     cases = []
     for _ in range(ctx.n(60, 6000)):
